@@ -82,6 +82,19 @@ class TD(TypedDict, Generic[T]):
 class TDChild(TD[T], Generic[T, U]):
     z: U
 
+# type variables inside PEP 604 unions next to builtin generics (types.UnionType annotations)
+@dataclasses.dataclass
+class PipeU(Generic[T]):
+    x: T
+    y: list[T] | None
+    z: list[T] | str
+    w: None | T = None
+@dataclasses.dataclass
+class PipeChild(PipeU[int]):
+    pass
+@dataclasses.dataclass
+class PipeGen(PipeU[U], Generic[T, U]):
+    pass
 import pydantic
 class PM(pydantic.BaseModel, Generic[T]):
     x: T
@@ -135,6 +148,12 @@ CASES.update({
     "PMGen_str_int": (PMGen[str, int], {"x": "int", "y": "list_int", "z": "str"}), "PMGen_int_str": (PMGen[int, str], {"x": "str", "y": "list_str", "z": "int"}),
     "PMOpt_int": (PMOpt[int], {"x": "opt_int", "y": "int"}), "PM_bare": (PM, {"x": "any", "y": "list_any"}),
 })
+CASES.update({
+    "PipeU_int": (PipeU[int], {"x": "int", "y": "opt_list_int", "z": "list_int_or_str", "w": "opt_int"}),
+    "PipeU_str": (PipeU[str], {"x": "str", "y": "opt_list_str", "z": "list_str_or_str", "w": "opt_str"}),
+    "PipeChild": (PipeChild, {"x": "int", "y": "opt_list_int", "z": "list_int_or_str", "w": "opt_int"}),
+    "PipeGen_str_int": (PipeGen[str, int], {"x": "int", "y": "opt_list_int", "z": "list_int_or_str", "w": "opt_int"}),
+})
 CASES["Deep_int"] = (Deep[int], {"x": "list_int", "y": "list_int", "z": "int"})      # Child2[List[T]] with T=int
 
 # generic type aliases (PEP 695) whose value uses the parameters in another order than the alias declares them
@@ -175,6 +194,10 @@ def conf(tag, v):
     if tag == "opt_int": return v is None or type(v) is int
     if tag == "opt_str": return v is None or type(v) is str
     if tag == "int_or_str": return type(v) in (int, str)
+    if tag == "opt_list_int": return v is None or conf("list_int", v)
+    if tag == "opt_list_str": return v is None or conf("list_str", v)
+    if tag == "list_int_or_str": return type(v) is str or conf("list_int", v)
+    if tag == "list_str_or_str": return type(v) is str or conf("list_str", v)
     raise KeyError(tag)
 
 RET = Retort(strict_coercion=True)
@@ -242,7 +265,7 @@ def build(tier, seed):
     m.ob("creation", "x: int", "return not ERR", timeout=30, family="generic hierarchies", bounds="loader and dumper creation for 25 parametrisations")
     cases = ["Child", "Child2_int", "Child2_str", "Child2_list", "Child2_bare", "Mid_str", "Mid_int", "Leaf", "Swap_int_str", "Swap_str_int", "Shadow_int",
              "Shadow_str", "Deep_int", "BoundG_bare", "BoundG_bool", "ConstrG_bare", "ConstrG_str", "Diamond", "Rename_int_str", "PlainOverChild", "PlainOverPlain", "GenericOverPlain_str", "AChild_int_str", "AChild_bare",
-             "NT_int", "NT_str", "TD_int", "TDChild_str_int", "PM_int", "PM_str", "PM2_int_str", "PMChild", "PMGen_str_int", "PMGen_int_str", "PMOpt_int", "PM_bare"]
+             "NT_int", "NT_str", "TD_int", "TDChild_str_int", "PM_int", "PM_str", "PM2_int_str", "PMChild", "PMGen_str_int", "PMGen_int_str", "PMOpt_int", "PM_bare", "PipeU_int", "PipeU_str", "PipeChild", "PipeGen_str_int"]
     for c in cases:
         pyd = c.startswith("PM")
         nf = len(CASE_FIELDS.get(c, range(4)))
